@@ -40,7 +40,12 @@ func TestMain(m *testing.M) { pbt.Main(m) }
 //
 // Operations on the shared *bt.FeeQuotes:
 //
-//	qfee(M,T) quote(M,T) addm(M,Q) addd(M) updm(M,T) qmar
+//	qfee(M,T) quote(M,T) addm(M,Q) addd(M) updm(M,T) qmar addn(M)
+//
+// Look-ups that fail are operations like any other (ninth round): miner index
+// nMiners names a miner nobody ever adds ("ghost"), fee type index 2 a fee type
+// nobody ever stores ("other"), and addn(M) registers miner M with a nil quote
+// (AddMiner(name, nil)), after which the miner has no quote again.
 //
 // Every write stores a value that is unique to the writing operation (it
 // encodes goroutine and operation index), so a value that is read can be
@@ -67,7 +72,18 @@ const (
 	maxOps  = 512 // per goroutine (generated: <= 300)
 	maxG    = 32
 	nMiners = 4
+	ghost   = nMiners // miner index of the name that is never added
+	otherT  = 2       // fee type index of the type that is never stored
 )
+
+var otherType = bt.FeeType("other")
+
+func ftOf(t int) bt.FeeType {
+	if t == otherT {
+		return otherType
+	}
+	return feeTypes[t]
+}
 
 // document shapes for unm
 const (
@@ -158,7 +174,12 @@ func docText(shape, id int) string {
 	return `{"standard":`
 }
 
-func miner(m int) string { return fmt.Sprintf("m%d", m) }
+func miner(m int) string {
+	if m == ghost {
+		return "nobody"
+	}
+	return fmt.Sprintf("m%d", m)
+}
 
 // ---------------------------------------------------------------------------
 // static facts about a program (computed from its text only)
@@ -169,6 +190,7 @@ type model struct {
 	mapsTo  [nMiners]map[int]bool // pool quotes some AddMiner registers under miner m
 	absent  [][2]bool             // per pool quote, fee type: some Unmarshal may remove the type
 	badDoc  []bool                // per pool quote: an invalid document is unmarshalled into it
+	nilable [nMiners]bool         // some AddMiner(m, nil) registers miner m without a quote
 }
 
 func buildModel(p Prog) *model {
@@ -184,6 +206,8 @@ func buildModel(p Prog) *model {
 				m.mapsTo[o.M][o.Q] = true
 			case "addd":
 				m.hasDflt[o.M] = true
+			case "addn":
+				m.nilable[o.M] = true
 			case "unm":
 				for t := 0; t < 2; t++ {
 					if !docHas(o.V, t) {
@@ -219,7 +243,7 @@ func (m *model) storesAt(id, t, q int) bool {
 	case "unm":
 		return o.Q == q && docHas(o.V, t)
 	case "updm":
-		return o.T == t && m.mapsTo[o.M][q]
+		return o.T == t && o.M != ghost && m.mapsTo[o.M][q]
 	}
 	return false
 }
@@ -272,6 +296,7 @@ type world struct {
 	fqs     *bt.FeeQuotes
 	q       []*bt.FeeQuote
 	initExp []time.Time
+	beat    beat // completed operations (watchdog)
 }
 
 type loc struct{ q, t int }
@@ -393,6 +418,9 @@ func (w *world) exec(o Op, i int, gs *gstate) error {
 	id := wid(gs.g, i)
 	switch o.K {
 	case "fee":
+		if o.T == otherT {
+			return refused(fmt.Sprintf("quote%d.Fee(%s)", o.Q, otherType), bt.ErrFeeTypeNotFound)(w.q[o.Q].Fee(otherType))
+		}
 		f, err := w.q[o.Q].Fee(feeTypes[o.T])
 		return w.readDirect(gs, o.Q, o.T, f, err, fmt.Sprintf("quote%d.Fee(%s)", o.Q, feeTypes[o.T]))
 	case "add":
@@ -460,21 +488,44 @@ func (w *world) exec(o Op, i int, gs *gstate) error {
 			_ = c.Change(bscript.NewFromBytes([]byte{0x76, 0xa9, 0x14, 1, 2, 3, 4, 5, 6, 7, 8, 9, 10, 11, 12, 13, 14, 15, 16, 17, 18, 19, 20, 0x88, 0xac}), w.q[o.Q])
 		}
 	case "qfee":
-		f, err := w.fqs.Fee(miner(o.M), feeTypes[o.T])
-		if errors.Is(err, bt.ErrMinerNoQuotes) && o.M != 0 {
-			return nil // the miner may not have been added yet
+		what := fmt.Sprintf("quotes.Fee(%s,%s)", miner(o.M), ftOf(o.T))
+		if o.M == ghost {
+			// nobody adds this miner: the one documented answer, whatever the other goroutines do to the container
+			return refused(what, bt.ErrMinerNoQuotes)(w.fqs.Fee(miner(o.M), ftOf(o.T)))
+		}
+		f, err := w.fqs.Fee(miner(o.M), ftOf(o.T))
+		if errors.Is(err, bt.ErrMinerNoQuotes) && (o.M != 0 || w.m.nilable[0]) {
+			if f != nil {
+				return fmt.Errorf("%s returned a fee together with %v", what, err)
+			}
+			return nil // the miner may not have been added yet (or is registered without a quote)
+		}
+		if o.T == otherT {
+			return refused(what, bt.ErrFeeTypeNotFound)(f, err)
 		}
 		return w.readVia(o.M, o.T, f, err, fmt.Sprintf("quotes.Fee(%s,%s)", miner(o.M), feeTypes[o.T]))
 	case "quote":
 		fq, err := w.fqs.Quote(miner(o.M))
+		if o.M == ghost {
+			if fq != nil || !errors.Is(err, bt.ErrMinerNoQuotes) {
+				return fmt.Errorf("quotes.Quote(%s) for a miner nobody adds returned (%v, %v), documented: ErrMinerNoQuotes", miner(o.M), fq, err)
+			}
+			return nil
+		}
 		if err != nil {
-			if errors.Is(err, bt.ErrMinerNoQuotes) && o.M != 0 {
+			if errors.Is(err, bt.ErrMinerNoQuotes) && o.M != 0 && fq == nil {
 				return nil
 			}
 			return fmt.Errorf("quotes.Quote(%s): %v", miner(o.M), err)
 		}
 		if fq == nil {
+			if w.m.nilable[o.M] {
+				return nil // registered with a nil quote: what AddMiner stored is what comes back
+			}
 			return fmt.Errorf("quotes.Quote(%s) returned nil, nil", miner(o.M))
+		}
+		if o.T == otherT {
+			return refused(fmt.Sprintf("quotes.Quote(%s).Fee(%s)", miner(o.M), otherType), bt.ErrFeeTypeNotFound)(fq.Fee(otherType))
 		}
 		for qi, q := range w.q {
 			if q == fq {
@@ -506,10 +557,20 @@ func (w *world) exec(o Op, i int, gs *gstate) error {
 		}
 	case "addd":
 		w.fqs.AddMinerWithDefault(miner(o.M))
+	case "addn":
+		if r := w.fqs.AddMiner(miner(o.M), nil); r != w.fqs {
+			return fmt.Errorf("AddMiner did not return its receiver")
+		}
 	case "updm":
 		fq, err := w.fqs.UpdateMinerFees(miner(o.M), feeTypes[o.T], feeObj(id, o.T))
+		if o.M == ghost {
+			if fq != nil || !errors.Is(err, bt.ErrMinerNoQuotes) {
+				return fmt.Errorf("quotes.UpdateMinerFees(%s) for a miner nobody adds returned (%v, %v), expected ErrMinerNoQuotes", miner(o.M), fq, err)
+			}
+			return nil
+		}
 		if err != nil {
-			if errors.Is(err, bt.ErrMinerNoQuotes) && o.M != 0 {
+			if errors.Is(err, bt.ErrMinerNoQuotes) && (o.M != 0 || w.m.nilable[0]) {
 				return nil
 			}
 			return fmt.Errorf("quotes.UpdateMinerFees(%s): %v", miner(o.M), err)
@@ -525,6 +586,16 @@ func (w *world) exec(o Op, i int, gs *gstate) error {
 		return fmt.Errorf("unknown op %q", o.K)
 	}
 	return nil
+}
+
+// refused judges a look-up that has exactly one documented answer: no fee and the given error.
+func refused(what string, want error) func(*bt.Fee, error) error {
+	return func(f *bt.Fee, err error) error {
+		if f != nil || !errors.Is(err, want) {
+			return fmt.Errorf("%s returned (%v, %v), documented: nil and %v", what, f, err, want)
+		}
+		return nil
+	}
 }
 
 func (w *world) readExpiry(gs *gstate, q int, e time.Time, what string) error {
@@ -611,6 +682,7 @@ func (w *world) runOnce() error {
 					errs[gi] = fmt.Errorf("goroutine %d op %d %+v: %v", gi, oi, o, err)
 					return
 				}
+				w.beat.tick()
 				if o.Y {
 					runtime.Gosched()
 				}
@@ -618,7 +690,11 @@ func (w *world) runOnce() error {
 		}(gi)
 	}
 	close(start)
-	wg.Wait()
+	done := make(chan struct{})
+	go func() { wg.Wait(); close(done) }()
+	if err := bounded(done, &w.beat, fmt.Sprintf("%d goroutines on shared fee quotes (GOMAXPROCS %d)", len(p.G), p.Procs)); err != nil {
+		return err // the goroutines are left behind; nothing they share is looked at again
+	}
 	for _, e := range errs {
 		if e != nil {
 			return e
@@ -710,13 +786,19 @@ func valid(p Prog) bool {
 			return false
 		}
 		for _, o := range g {
-			if o.Q < 0 || o.Q >= p.NQuotes || o.M < 0 || o.M >= nMiners || o.T < 0 || o.T > 1 || o.V < 0 {
+			if o.Q < 0 || o.Q >= p.NQuotes || o.M < 0 || o.M > ghost || o.T < 0 || o.T > otherT || o.V < 0 {
+				return false
+			}
+			if o.M == ghost && o.K != "qfee" && o.K != "quote" && o.K != "updm" {
+				return false
+			}
+			if o.T == otherT && o.K != "fee" && o.K != "qfee" && o.K != "quote" {
 				return false
 			}
 			if o.K == "unm" && o.V >= nDocShapes {
 				return false
 			}
-			if p.Kind == "quote" && (o.Q != 0 || o.K == "qfee" || o.K == "quote" || o.K == "addm" || o.K == "addd" || o.K == "updm" || o.K == "qmar") {
+			if p.Kind == "quote" && (o.Q != 0 || o.K == "qfee" || o.K == "quote" || o.K == "addm" || o.K == "addd" || o.K == "updm" || o.K == "qmar" || o.K == "addn") {
 				return false
 			}
 		}
@@ -724,9 +806,12 @@ func valid(p Prog) bool {
 	return p.Kind == "quote" || p.Kind == "quotes"
 }
 
-var writers = map[string]bool{"add": true, "upd": true, "unm": true, "addm": true, "addd": true, "updm": true}
+var writers = map[string]bool{"add": true, "upd": true, "unm": true, "addm": true, "addd": true, "updm": true, "addn": true}
 
 func checkProg(ctx *pbt.Ctx, p Prog) error {
+	if skipAbandoned(ctx) {
+		return nil
+	}
 	if !valid(p) {
 		ctx.Discard("outside domain")
 		return nil
@@ -746,6 +831,12 @@ func checkProg(ctx *pbt.Ctx, p Prog) error {
 		for _, o := range g {
 			nops++
 			kinds[o.K] = true
+			if o.M == ghost {
+				kinds[o.K+":ghost-miner"] = true
+			}
+			if o.T == otherT {
+				kinds[o.K+":unknown-type"] = true
+			}
 			if writers[o.K] {
 				nw++
 			} else {
@@ -784,13 +875,15 @@ func bucket(n int, edges ...int) string {
 // generator
 
 var quoteOps = []string{"fee", "fee", "add", "add", "exp", "upd", "expd", "mar", "mar", "unm", "txf"}
-var quotesOps = []string{"qfee", "qfee", "quote", "quote", "addm", "addd", "updm", "updm", "qmar",
+var quotesOps = []string{"qfee", "qfee", "quote", "quote", "addm", "addd", "updm", "updm", "qmar", "addn",
 	"fee", "add", "exp", "upd", "expd", "mar", "unm", "txf"}
 
 func genOp(t *rapid.T, kinds []string, nq int) Op {
 	o := Op{K: rapid.SampledFrom(kinds).Draw(t, "k")}
 	switch o.K {
-	case "fee", "add":
+	case "fee":
+		o.Q, o.T = rapid.IntRange(0, nq-1).Draw(t, "q"), rapid.SampledFrom([]int{0, 1, 0, 1, 0, 1, otherT}).Draw(t, "t")
+	case "add":
 		o.Q, o.T = rapid.IntRange(0, nq-1).Draw(t, "q"), rapid.IntRange(0, 1).Draw(t, "t")
 	case "exp", "expd", "mar":
 		o.Q = rapid.IntRange(0, nq-1).Draw(t, "q")
@@ -800,8 +893,13 @@ func genOp(t *rapid.T, kinds []string, nq int) Op {
 		o.Q, o.V = rapid.IntRange(0, nq-1).Draw(t, "q"), rapid.IntRange(0, 3).Draw(t, "v")
 	case "unm":
 		o.Q, o.V = rapid.IntRange(0, nq-1).Draw(t, "q"), rapid.SampledFrom([]int{docBoth, docBoth, docBoth, docBoth, docStdOnly, docDataOnly, docUnknownType, docMalformed}).Draw(t, "v")
-	case "qfee", "quote", "updm":
-		o.M, o.T = rapid.IntRange(0, nMiners-1).Draw(t, "m"), rapid.IntRange(0, 1).Draw(t, "t")
+	case "qfee", "quote":
+		// the miner nobody adds and the fee type nobody stores are look-ups like the others
+		o.M, o.T = rapid.SampledFrom([]int{0, 1, 2, 3, 0, 1, 2, 3, ghost}).Draw(t, "m"), rapid.SampledFrom([]int{0, 1, 0, 1, 0, 1, otherT}).Draw(t, "t")
+	case "updm":
+		o.M, o.T = rapid.SampledFrom([]int{0, 1, 2, 3, 0, 1, 2, 3, ghost}).Draw(t, "m"), rapid.IntRange(0, 1).Draw(t, "t")
+	case "addn":
+		o.M = rapid.IntRange(1, nMiners-1).Draw(t, "m") // the initial miner keeps its quote
 	case "addm":
 		o.M, o.Q = rapid.IntRange(0, nMiners-1).Draw(t, "m"), rapid.IntRange(0, nq-1).Draw(t, "q")
 	case "addd":
